@@ -39,16 +39,20 @@ obs = []
 obs += [ob('harness_exp_%d' % i, bounds='MockExpectedCall_c.{%s} called in this order on one expectation (expectOneCall("f") ... ignoreOtherParameters()): %s; %s' % (', '.join(g), W, NAMES)) for i, g in enumerate(grp(EXP))]
 obs += [ob('harness_act_%d' % i, bounds='MockActualCall_c.{%s} called in this order on one actual call: %s; %s' % (', '.join(g), W, NAMES)) for i, g in enumerate(grp(ACT))]
 for tb in range(2):
-    T1 = {'tier': 'thorough'} if tb == 1 else {}   # the value part of MockSupport_c is proved identical to MockActualCall_c by harness_shared_members
+    T1 = {}
     for i, g in enumerate(grp(GET)):
         obs.append(ob('harness_get_%d_%d' % (tb, i), bounds='%s.{%s}ReturnValue: each on a stored value of the getter\'s own type, all 64-bit words' % (TBL[tb], ', '.join(g)), **T1))
         for hv, hn in ((1, 'has'), (0, 'none')):
             obs.append(ob('harness_get_default_%d_%s_%d' % (tb, hn, i), bounds='%s.return{%s}ValueOrDefault, call %s return value: stored value and default all 64-bit words' % (TBL[tb], ', '.join(x[0].upper() + x[1:] for x in g), 'has a' if hv else 'has no'), **T1))
             for lv in range(2):
-                obs.append(ob('harness_get_default_cpp_%d_%d_%s_%d' % (tb, lv, hn, i), tier='thorough',
+                obs.append(ob('harness_get_default_cpp_%d_%d_%s_%d' % (tb, lv, hn, i), **({} if (tb, lv) == (1, 1) else {'tier': 'thorough'}),
                               bounds='%s.return{%s}ValueOrDefault against the C++ ...OrDefault of the %s on the same state (call %s return value): value and default all 64-bit words' % (TBL[tb], ', '.join(x[0].upper() + x[1:] for x in g), ['MockActualCall', 'MockSupport'][lv], 'has a' if hv else 'has no')))
     obs.append(ob('harness_has_%d' % tb, bounds='%s.hasReturnValue for both answers; returnValue() of a call without return value' % TBL[tb], **T1))
     obs += [ob('harness_retval_%d_%d' % (tb, i), bounds='%s.returnValue() for a stored {%s}: all 64-bit words (buffer size symbolic)' % (TBL[tb], ', '.join(g)), **T1) for i, g in enumerate(grp(VT))]
+obs += [ob('harness_support_get_%d' % i, bounds='MockSupport_c.{%s}ReturnValue against MockSupport::...ReturnValue (real C++ getters) on the same state: stored value all 64-bit words; state symbolic: checked call holding a value of the own type / ignoring call (mocking disabled)%s' % (', '.join(g), '' if i == 0 else ' [ignoring-call state excluded: KF_C19_1]'),
+           optional_witness=['exit path'] + ([] if i == 0 else ['end ignoring call']))
+        for i, g in enumerate([['int', 'unsignedInt', 'longInt', 'unsignedLongInt'], ['longLongInt', 'unsignedLongLongInt', 'bool', 'string'], GET[8:12]])]
+obs += [ob('harness_disabled_support_getter_int', bounds='REAL engine (global mock): disable(); actualCall("f"); intReturnValue() through C and through C++')]
 obs += [ob('harness_shared_members', bounds='26 members of MockSupport_c compared with MockActualCall_c (pointer identity)')]
 obs += [ob('harness_sup_%d' % i, bounds='MockSupport_c.{%s}: argument word 64-bit symbolic, C++ answer symbolic; function names 0..2 symbolic bytes' % ', '.join(g)) for i, g in enumerate(grp(SUP))]
 obs += [ob('harness_scope', bounds='mock_scope_c("d") twice, then mock_c()'),
@@ -63,8 +67,17 @@ obs += [ob('harness_get_data_missing', bounds='getData of a name never stored'),
 SPEC = {
     'property': 'C19',
     'functions_of_interest': ['_c', 'MockSupport', 'MockCFunction', 'MockFailureReporterForInCOnlyCode'],
-    'assumptions': [],
+    'assumptions': [
+        'PER-ENTRY-POINT equivalence with recording doubles: the C++ objects behind the file-static pointers of MockSupport_c.cpp are a RecSupport (MockSupport subclass, installed as scope "d" of the global mock through the public data store and selected with mock_scope_c("d")), RecExpected (MockExpectedCall) and RecActual (MockCheckedActualCall subclass whose returnValue() is configured by the harness; its typed getters run the real MockCheckedActualCall code). The oracle is the table in h19.c written from MockSupport_c.h: C entry point -> same-named C++ method, argument mapping (int -> bool by != 0, everything else bit-identical)',
+        'WHOLE-SCENARIO equivalence (same verdict, failure text, output-parameter bytes for a whole mocking scenario) is NOT a solver result here: it follows only by composition of these per-call results with the C++ engine behaving identically for identical call sequences (property C08); failure text and output-parameter copying happen entirely inside the C++ engine and are not re-checked',
+        'the value part of the tables (hasReturnValue, returnValue, 24 typed getters) reads the C interface\'s own "current actual call"; the obligations hold for the states in which that call is the MockSupport\'s last actual call (checked call) or, for harness_support_get_*, the ignoring call handed out while mocking is disabled. Not covered (by reading, see report): typed getters of the MockSupport table before any actualCall() through the C interface (NULL dereference) or after clear() (dangling call object), and getters asked on a different scope than the one of the last actualCall()',
+        'KF_C19_1 (open finding, -DKF_C19_1 in the group defines): while mocking is disabled / the call is ignored, MockSupport_c.{bool,string,double,pointer,constPointer,functionPointer}ReturnValue answer false/""/0.0/NULL where the C++ MockSupport getters fail the test; these inputs are assumed away in harness_support_get_1/_2; demonstrated on the real engine by finding_disabled_support_getter_{double,string,bool} in h19.c',
+        'ENGINE LIMITATION worked around in w19.cpp: ll2c resolves indirect calls by identical LLVM function type and llvm-link keeps the table structs of the two translation units as distinct named types, so table members whose signature mentions MockExpectedCall_c*/MockActualCall_c* are checked as (member == forwarder, by pointer) + (forwarder called directly); members with scalar signatures are called through the table',
+        'four entry points per obligation (constant script, own symbolic arguments each) because ~8 s of every obligation is set-up (global constructors, scope registration with the 32-character scope key, mock_scope_c)',
+        'pointer-typed arguments/values (strings, buffers, objects, function pointers) are passed as 64-bit symbolic addresses and compared by identity; they are never dereferenced by a forwarder. Names are dereferenced (SimpleString construction): 0..2 symbolic bytes',
+        'UT_CRASH / crashOnFailure(true) behaviour of the C failure reporter and real scope creation through mock_scope_c (MockSupport::clone) are not exercised; failure-message formatting renders "#" (vsnprintf stub)'],
     'groups': [{
+        'defines': ['-DKF_C19_1'],
         'name': 'c_api', 'wrapper': 'w19.cpp', 'harness': 'h19.c',
         'config': {'ext': True},
         'obligations': obs,
